@@ -345,6 +345,53 @@ def unused_undefined_global_raises():
         shutil.rmtree(d)
 
 
+# ---- C13 ------------------------------------------------------------------------------------
+def equal_but_distinct_receivers():
+    class Box:
+        def __init__(self, tag):
+            self.tag = tag
+
+        def __eq__(self, other):
+            return True
+
+        def __hash__(self):
+            return 1
+
+        def put(self, v):
+            stored = v
+            return stored
+
+    a, b = Box("a"), Box("b")
+    with probing("a.put > stored", env={"a": a}) as prb:
+        got = prb.accum()
+        a.put(1)
+        b.put(2)
+    print("events for a.put:", got)
+    return [e["stored"] for e in got] != [1]
+
+
+def unhashable_receiver():
+    class Bag:
+        def __eq__(self, other):
+            return self is other
+
+        def put(self, v):
+            stored = v
+            return stored
+
+    a, b = Bag(), Bag()
+    try:
+        with probing("a.put > stored", env={"a": a}) as prb:
+            got = prb.accum()
+            a.put(1)
+            b.put(2)
+    except TypeError as e:
+        print("TypeError at select:", e)
+        return True
+    print("events:", got)
+    return [e["stored"] for e in got] != [1]
+
+
 if __name__ == "__main__":
     case = sys.argv[1]
     bad = globals()[case]()
